@@ -14,6 +14,10 @@ verus! {
 pub assume_specification<T: PartialEq + ?Sized, A: std::alloc::Allocator>[ <Rc<T, A> as PartialEq<Rc<T, A>>>::eq ](a: &Rc<T, A>, b: &Rc<T, A>) -> (r: bool)
     ensures T::obeys_eq_spec() ==> r == (**a).eq_spec(&**b);
 
+// T1: `Rc::as_ref` is deref (alloc::rc, `impl<T> AsRef<T> for Rc<T>`)
+pub assume_specification<T: ?Sized, A: std::alloc::Allocator>[ <Rc<T, A> as AsRef<T>>::as_ref ](a: &Rc<T, A>) -> (r: &T)
+    ensures r == &**a;
+
 // R1: `.into()` into an `Rc` is `Rc::from(t)` = `Rc::new(t)`; vstd cannot specify it from outside
 // `alloc` (orphan rule), so the token `.into()` is renamed `.vinto()` and resolved here.
 pub trait VInto<T> {
